@@ -26,7 +26,7 @@ func init() {
 	register(&mon.Prop{
 		ID:      "C14",
 		Flavour: "plain",
-		Rule: "cases: every 2^i, every n-1-2^i, 2^255|2^i, the structured list mod n, Montgomery-structured values, PRNG scalars (sparse, dense, limb patterns, bit 255 forced). " +
+		Rule: "History cases use the scalar moves of mon/move.go (objects built through SetUInt64 / Decode / addition / scripted Random, then one of 40 mutators incl. self-aliasing, sums landing on 0 and 1, recovered misuse, range-rejected decodes whose resulting value is taken from Encode). cases: every 2^i, every n-1-2^i, 2^255|2^i, the structured list mod n, Montgomery-structured values, PRNG scalars (sparse, dense, limb patterns, bit 255 forced). " +
 			"Oracle: entry i of Bits() must be exactly 0 or 1 and equal bit i of OS2IP(Encode(s)) (and of the materialised integer) for all 256 positions; sum of bits[i]*2^i must equal the value. " +
 			"Every position must have been observed both as 0 and as 1. " +
 			"History cases: the same *Scalar object first holds another value and is observed (Bits, Encode), is then driven to the target value through each mutator of the API " +
